@@ -1250,3 +1250,105 @@ def replay(case):
             pre = "" if res[0][0].startswith("C02/freed-object-") and res[0][0].endswith("-dependent") else config_prefix(ref_ok, case["caching"], case["bufsiz"])
             res = [(with_prefix(pre, s), e, o, w) for s, e, o, w in res]
     return [{"signature": s, "expected": repr(e)[:1500], "observed": repr(o)[:1500]} for s, e, o, _ in res]
+
+
+# --------------------------------------------------------------------------------------------------------------------
+# Family "idxorder" (main session, after seeded defect C02_20 was missed): a cross-reference stream whose /Index lists its
+# subsections in ANY order (ISO 32000-1 7.5.8.2 does not require ascending order; the entries follow the order of the array).
+def _idx_doc(perm, W=(1, 2, 1)):
+    """objects 1,2,3 and 5,6,7 plus the xref stream 8; subsections (0,4) (5,3) (8,1) written in the order `perm`"""
+    out = bytearray(b"%PDF-1.5\n")
+    offs = {}
+
+    def obj(num, body):
+        offs[num] = len(out)
+        out.extend(b"%d 0 obj\n" % num + body + b"\nendobj\n")
+
+    content = b"BT /F1 12 Tf 20 100 Td (Idx) Tj ET"
+    obj(1, b"<</Type/Catalog/Pages 2 0 R/Marker/M1>>")
+    obj(2, b"<</Type/Pages/Kids[3 0 R]/Count 1/Marker/M2>>")
+    obj(3, b"<</Type/Page/Parent 2 0 R/MediaBox[0 0 300 300]/Resources<</Font<</F1 5 0 R>>>>/Contents 6 0 R/Marker/M3>>")
+    obj(5, b"<</Type/Font/Subtype/Type1/BaseFont/Helvetica/Marker/M5>>")
+    obj(6, b"<</Length %d>>\nstream\n" % len(content) + content + b"\nendstream")
+    obj(7, b"<</Marker/M7>>")
+    offs[8] = len(out)
+    subs = [(0, 4), (5, 3), (8, 1)]
+
+    def entry(n):
+        t, a, b = (0, 0, 255) if n == 0 else (1, offs[n], 0)
+        return b"".join(v.to_bytes(w, "big") for v, w in zip((t, a, b), W))
+
+    data = b"".join(entry(s + i) for k in perm for (s, c) in [subs[k]] for i in range(c))
+    index = b" ".join(b"%d %d" % subs[k] for k in perm)
+    out.extend(b"8 0 obj\n<</Type/XRef/Size 9/Root 1 0 R/W[%d %d %d]/Index[%s]/Length %d>>\nstream\n" % (W + (index, len(data))) + data + b"\nendstream\nendobj\n")
+    out.extend(b"startxref\n%d\n%%%%EOF\n" % offs[8])
+    return bytes(out)
+
+
+def judge_idxorder(case):
+    import io as _io
+
+    from pdfminer.high_level import extract_text
+    from pdfminer.pdfdocument import PDFDocument
+    from pdfminer.pdfparser import PDFParser
+    from pdfminer.pdftypes import PDFStream
+
+    perm = tuple(case["perm"])
+    data = _idx_doc(perm)
+    res = []
+    for caching in (True, False):
+        try:
+            doc = PDFDocument(PDFParser(_io.BytesIO(data)), caching=caching)
+            ids = sorted({i for x in doc.xrefs for i in x.get_objids()})
+            if ids != [1, 2, 3, 5, 6, 7, 8]:
+                res.append(("C02/index-order:objids", [1, 2, 3, 5, 6, 7, 8], ids, f"in-use object numbers with /Index order {perm}"))
+            for n in (1, 2, 3, 5, 7):
+                o = doc.getobj(n)
+                m = o.get("Marker") if isinstance(o, dict) else None
+                if getattr(m, "name", None) != "M%d" % n:
+                    res.append(("C02/index-order:getobj-wrong", "M%d" % n, repr(o)[:120], f"getobj({n}) with /Index order {perm}, caching={caching}"))
+            if not isinstance(doc.getobj(6), PDFStream):
+                res.append(("C02/index-order:getobj-wrong", "stream", repr(doc.getobj(6))[:120], "getobj(6)"))
+        except Exception as e:  # noqa
+            res.append((f"C02/index-order:exception:{type(e).__name__}", "objects resolve", repr(e)[:200], f"/Index order {perm}, caching={caching}"))
+    try:
+        t = extract_text(_io.BytesIO(data))
+        if "Idx" not in t:
+            res.append(("C02/index-order:text", "Idx", repr(t), f"extract_text with /Index order {perm}"))
+    except Exception as e:  # noqa
+        res.append((f"C02/index-order:exception:{type(e).__name__}", "text", repr(e)[:200], f"extract_text, /Index order {perm}"))
+    return res
+
+
+_shards_before_idx, _run_shard_before_idx, _replay_before_idx = shards, run_shard, replay
+
+
+def shards(tier):  # noqa: F811
+    return _shards_before_idx(tier) + [("idxorder",)]
+
+
+def run_shard(shard, tier, st):  # noqa: F811
+    if shard[0] != "idxorder":
+        return _run_shard_before_idx(shard, tier, st)
+    import itertools as _it
+
+    for perm in _it.permutations(range(3)):
+        case = {"part": "idxorder", "perm": list(perm)}
+        st.states += 1
+        st.transitions += 9
+        st.traces += 1
+        res = judge_idxorder(case)
+        st.case(("idxorder", perm), nontrivial=perm != (0, 1, 2), outcome=("idxorder", tuple(sorted(s for s, _, _, _ in res))))
+        for sig, exp, obs, what in res:
+            st.violation(sig, case, exp, obs, what)
+    st.sample({"family": "idxorder", "subsections": [[0, 4], [5, 3], [8, 1]], "orders": 6})
+
+
+def replay(case):  # noqa: F811
+    if isinstance(case, dict) and case.get("part") == "idxorder":
+        return [{"signature": s, "expected": repr(e)[:1500], "observed": repr(o)[:1500]} for s, e, o, _ in judge_idxorder(case)]
+    return _replay_before_idx(case)
+
+
+META["rule"] += (" idxorder: a cross-reference stream with three subsections written in each of the 6 orders of its /Index array (the entries follow the array): "
+                 "in-use object numbers, every object, the catalog and the page text are the same for every order.")
